@@ -99,6 +99,9 @@ func (x *ctx) callValue(st *state, fr *frame, fnv val, args []val, c *ssa.CallCo
 	if callee.Synthetic != "" && strings.HasPrefix(callee.Synthetic, "bound method wrapper") {
 		m := x.w.prog.FuncValue(callee.Object().(*types.Func))
 		if m == nil {
+			m = x.w.prog.FuncValue(callee.Object().(*types.Func).Origin())
+		}
+		if m == nil {
 			x.fail("cannot resolve bound method %s", callee)
 		}
 		if o := m.Origin(); o != nil {
@@ -594,7 +597,10 @@ func (x *ctx) bindArgs(fn *ssa.Function, names []string, env func(name string, t
 		}
 		v, ok := env(n, p.Type())
 		if !ok {
-			sk, have := x.skolem[n]
+			sk, have := x.skolemOv[n]
+			if !have {
+				sk, have = x.skolem[n]
+			}
 			if !have {
 				sk = x.freshVal("sk_"+n, p.Type())
 				x.skolem[n] = sk
@@ -772,6 +778,9 @@ func (x *ctx) contractCall(st *state, fr *frame, con *Contract, callee *ssa.Func
 		}
 	}
 	pre := st.clone()
+	if x.spec == 0 && len(con.Cbs) > 0 {
+		x.callbackConformance(pre.clone(), fr, con, callee, args, env)
+	}
 	// level-1 closures are evaluated in the pre-state
 	type pend struct {
 		cl *Clause
@@ -1394,6 +1403,10 @@ func (x *ctx) loopEntry(st *state, fr *frame, b *ssa.BasicBlock, prev *ssa.Basic
 		kind = "inv-preserved"
 	}
 	for _, cl := range ls.Invariants {
+		if cl.Assumed {
+			x.assumed[fmt.Sprintf("assumed loop fact in %s, %s [%s]: %s", lcon.Target, site, cl.Tag(), cl.Expr)] = true
+			continue
+		}
 		x.oblige(st, kind, cl.Tag(), site, evalInv(st, cl, false), "")
 	}
 	if back {
@@ -1420,7 +1433,106 @@ func (x *ctx) loopEntry(st *state, fr *frame, b *ssa.BasicBlock, prev *ssa.Basic
 	for _, cl := range ls.Invariants {
 		st.assume(evalInv(st, cl, true))
 	}
+	// invariants over skolem variables hold for every value of them: kept for lazy instantiation at range keys
+	var snap *state
+	for _, cl := range ls.Invariants {
+		vars := skolemVarsOf(lcon, cl.Expr)
+		if len(vars) == 0 {
+			continue
+		}
+		if snap == nil {
+			snap = st.clone()
+		}
+		capt := map[string]val{}
+		fe := phiEnv(true)
+		for _, n := range cl.P3 {
+			if v, ok := fe(n, nil); ok {
+				capt[n] = v
+			}
+		}
+		cl, snap := cl, snap
+		st.univ = append(st.univ, &univFact{id: fmt.Sprintf("inv:%s:%d:%s:%d", fr.fn.Name(), ord, cl.Tag(), len(st.pc)), vars: vars, eval: func(cur *state) string {
+			s := snap.clone()
+			n0 := len(s.pc)
+			pc := x.pre.clone()
+			np := len(pc.pc)
+			l1 := x.clauseL1(pc, lcon, cl, penv)
+			for id, v := range pc.cells {
+				if _, ok := s.cells[id]; !ok {
+					s.cells[id] = v
+				}
+			}
+			for _, f := range pc.pc[np:] {
+				if f.def {
+					s.define(f.t)
+				}
+			}
+			t := x.applyClosure(s, l1, cl.P3, func(name string, tt types.Type) (val, bool) { v, ok := capt[name]; return v, ok }).t.s
+			for _, f := range s.pc[n0:] {
+				if f.def {
+					cur.define(f.t)
+				}
+			}
+			for id, v := range s.cells {
+				if _, ok := cur.cells[id]; !ok {
+					cur.cells[id] = v
+				}
+			}
+			return t
+		}})
+	}
 	return false, true
+}
+
+// skolemVarsOf lists the skolem variables (`var name T` of the contract) that occur in a clause.
+func skolemVarsOf(con *Contract, expr string) []string {
+	var out []string
+	for _, v := range con.Vars {
+		if wordIn(expr, v.Name) {
+			out = append(out, v.Name)
+		}
+	}
+	return out
+}
+
+func wordIn(s, w string) bool {
+	for i := 0; i+len(w) <= len(s); i++ {
+		if s[i:i+len(w)] == w && (i == 0 || !isIdentByte(s[i-1])) && (i+len(w) == len(s) || !isIdentByte(s[i+len(w)])) {
+			return true
+		}
+	}
+	return false
+}
+
+// instantiateUniv assumes, for a new term k (a key produced by a range over a map), the instances at k of every
+// universally valid fact over a skolem variable of k's sort: the preconditions of the function under verification and
+// the loop invariants assumed so far on this path.
+func (x *ctx) instantiateUniv(st *state, k term) {
+	if x.spec > 0 {
+		return
+	}
+	facts := append(append([]*univFact(nil), x.reqFacts...), st.univ...)
+	for _, f := range facts {
+		for _, v := range f.vars {
+			sk, ok := x.skolem[v]
+			if !ok || sk.t.s == "" || sk.t.srt.name != k.srt.name || sk.t.s == k.s {
+				continue
+			}
+			key := f.id + "|" + v + "|" + k.s
+			if st.univDone[key] {
+				continue
+			}
+			if st.univDone == nil {
+				st.univDone = map[string]bool{}
+			}
+			st.univDone[key] = true
+			save := x.skolemOv
+			x.skolemOv = map[string]val{v: scalar(k)}
+			t := f.eval(st)
+			x.skolemOv = save
+			st.assume(t)
+		}
+	}
 }
 
 // localByName resolves a local variable of the function (not loop-carried) through debug references.
@@ -1965,4 +2077,165 @@ func (x *ctx) localAnywhere(st *state, of *frame, name string) (val, bool) {
 		return x.load(st, v, deref(best.Type())), true
 	}
 	return v, true
+}
+
+// ---------------------------------------------------------------- callback conformance
+
+// callbackConformance: a function whose contract constrains a function-typed parameter (callback contract) assumes, at
+// every invocation of that parameter, the callback's modifies and ensures. The caller that passes a function value owes
+// the proof that the value satisfies the callback contract. It is discharged here, at the call site: in an arbitrary
+// state that the callee can be in when it invokes the callback (the callee's declared footprint havocked), with the
+// callback's requires assumed for arbitrary callback arguments, the value is executed (by its own contract when it has
+// one - its preconditions become call-requires obligations - or by its body), and then
+//   - every location it wrote must be listed in the callback's modifies   (callback-frame)
+//   - the callback's ensures must hold                                     (callback-ensures)
+func (x *ctx) callbackConformance(st *state, fr *frame, con *Contract, callee *ssa.Function, args []val, env envFn) {
+	var names []string
+	for name := range con.Cbs {
+		if !strings.HasPrefix(name, "result:") {
+			names = append(names, name)
+		}
+	}
+	sort.Strings(names)
+	for _, name := range names {
+		spec := con.Cbs[name]
+		idx := -1
+		for i, p := range con.Params {
+			if p == name {
+				idx = i
+			}
+		}
+		if idx < 0 || idx >= len(args) {
+			x.fail("callback contract %s of %s: no such parameter", name, con.Target)
+		}
+		a := args[idx]
+		if a.cb != nil && a.cb.spec == spec {
+			continue // the same contract, forwarded in a recursive call
+		}
+		if a.fn == nil && a.cb == nil {
+			if a.t.s == null.s {
+				continue
+			}
+			x.fail("callback argument %s of %s is not a known function value: its callback contract cannot be checked at this call site", name, con.Target)
+		}
+		var sig *types.Signature
+		if callee != nil && idx < len(callee.Params) {
+			sig, _ = callee.Params[idx].Type().Underlying().(*types.Signature)
+		}
+		if sig == nil {
+			x.fail("callback contract %s of %s: parameter is not a function", name, con.Target)
+		}
+		S := st.clone()
+		x.applyModifies(S, st, con, con.Mods, env)
+		var cbArgs []val
+		for i := 0; i < sig.Params().Len(); i++ {
+			p := sig.Params().At(i)
+			v := x.freshVal("cbarg_"+name+"_"+p.Name(), p.Type())
+			if v.t.s != "" && v.t.srt == sRef {
+				x.noteAllocated(S, v.t)
+				x.typeTag(S, v.t, p.Type())
+			}
+			cbArgs = append(cbArgs, v)
+		}
+		cenv := func(cl *Clause) envFn {
+			return func(n string, t types.Type) (val, bool) {
+				np := len(cl.P1) - len(cbArgs)
+				for i := np; i < len(cl.P1); i++ {
+					if i >= 0 && cl.P1[i] == n && i-np < len(cbArgs) {
+						return cbArgs[i-np], true
+					}
+				}
+				return env(n, t)
+			}
+		}
+		merge := func(from *state, n0 int, to *state) {
+			for id, v := range from.cells {
+				if _, ok := to.cells[id]; !ok {
+					to.cells[id] = v
+				}
+			}
+			for _, f := range from.pc[n0:] {
+				if f.def {
+					to.define(f.t)
+				}
+			}
+		}
+		for _, cl := range spec.Requires {
+			var g val
+			if cl.Levels == 2 {
+				pc := st.clone()
+				np := len(pc.pc)
+				l1 := x.clauseL1(pc, con, cl, env)
+				merge(pc, np, S)
+				g = x.applyClosure(S, l1, cl.P3, func(n string, t types.Type) (val, bool) {
+					for i, pn := range cl.P3 {
+						if pn == n && i < len(cbArgs) {
+							return cbArgs[i], true
+						}
+					}
+					return env(n, t)
+				})
+			} else {
+				g = x.clauseL1(S, con, cl, cenv(cl))
+			}
+			S.assume(g.t.s)
+		}
+		Spre := S.clone()
+		type pend struct {
+			cl *Clause
+			l1 val
+		}
+		var pends []pend
+		npre := len(Spre.pc)
+		for _, cl := range spec.Ensures {
+			pends = append(pends, pend{cl, x.clauseL1(Spre, con, cl, cenv(cl))})
+		}
+		merge(Spre, npre, S)
+		var rt types.Type = sig.Results()
+		if sig.Results().Len() == 1 {
+			rt = sig.Results().At(0).Type()
+		}
+		saveSite, saveFrom := x.siteCtx, x.allocFrom
+		x.siteCtx = "%as-callback(" + name + ")"
+		x.allocFrom = len(x.allocated)
+		savePaths := x.paths
+		outs := x.callValue(S, fr, a, cbArgs, nil, rt)
+		x.paths = savePaths
+		site := shortTarget(con.Target) + ":" + name
+		exempt := func(k string) bool {
+			return k == "G:calls_"+name || strings.HasPrefix(k, "G:calls_") && a.fn != nil && k == "G:calls_"+a.fn.Name()
+		}
+		penv := func(n string, t types.Type) (val, bool) {
+			// modifies items of a callback contract: enclosing parameters, then the callback's (cb_-prefixed) parameters
+			for i := 0; i < sig.Params().Len(); i++ {
+				pn := "cb_" + sig.Params().At(i).Name()
+				if sig.Params().At(i).Name() == "" || sig.Params().At(i).Name() == "_" {
+					pn = fmt.Sprintf("cb%d", i)
+				}
+				if pn == n {
+					return cbArgs[i], true
+				}
+			}
+			return env(n, t)
+		}
+		for _, o := range outs {
+			if o.panic {
+				continue
+			}
+			x.siteCtx = saveSite
+			x.frameCheck(o.st, Spre, Spre, con, spec.Mods, penv, o.ret, "callback-frame["+site+"]", exempt)
+			for _, p := range pends {
+				l2 := x.applyClosure(o.st, p.l1, nil, cenv(p.cl))
+				l2 = x.applyClosure(o.st, l2, nil, cenv(p.cl))
+				r := x.applyClosure(o.st, l2, p.cl.P3, func(n string, t types.Type) (val, bool) {
+					if n == "cbr0" {
+						return o.ret, true
+					}
+					return cenv(p.cl)(n, t)
+				})
+				x.oblige(o.st, "callback-ensures", p.cl.Tag(), site, r.t.s, "the function value passed must establish the ensures of the callee's callback contract")
+			}
+		}
+		x.siteCtx, x.allocFrom = saveSite, saveFrom
+	}
 }
